@@ -127,9 +127,15 @@ Fixpoint cs_del_seq (s : list (N * cs_bytes)) (ids : list N) : list (N * cs_byte
 Definition cs_sweep (s : list (N * cs_bytes)) (d : cs_db) : list (N * cs_bytes) :=
   filter (fun p => cs_has_msg d (fst p)) s.
 
-Definition cs_recover (m : cs_m) : cs_m :=
+(* newUser runs the purge BEFORE the sweep ([purge_first] = true; the order is read from the source by the translator:
+   Gen/FactsStartup.v startup_purge_before_sweep).  With the other order the sweep sees the marked rows still referencing
+   their files and the files the aborted delete loop leaves behind stay. *)
+Definition cs_recover_ord (purge_first : bool) (m : cs_m) : cs_m :=
   let '(d1, ids) := cs_purge_db (m_db m) in
-  mkM (cs_sweep (cs_del_seq (m_store m) ids) d1) d1 None.
+  if purge_first then mkM (cs_sweep (cs_del_seq (m_store m) ids) d1) d1 None
+  else mkM (cs_del_seq (cs_sweep (m_store m) (m_db m)) ids) d1 None.
+
+Definition cs_recover (m : cs_m) : cs_m := cs_recover_ord true m.
 
 (* ---- what a client can see ---- *)
 Section View.
